@@ -376,6 +376,11 @@ def f_worldspawn_keys(vmf: VMF) -> None:
     vmf.spawn['targetname'] = 'WorldName'
 
 
+def f_worldspawn_editor(vmf: VMF) -> None:
+    vmf.spawn.comments = 'Map notes: "WIP"\nTODO: lighting'
+    vmf.spawn.editor_color = Vec(12, 34, 56)
+
+
 def f_node_ids(vmf: VMF) -> None:
     vmf.create_ent('info_node', nodeid='1', origin='0 0 0')
     vmf.create_ent('info_node', nodeid='1', origin='64 0 0')
@@ -392,7 +397,7 @@ FEATURES: list[tuple[str, Callable[[VMF], None]]] = [(f.__name__[2:], f) for f i
     f_disp1, f_disp2, f_disp3, f_disp4, f_disp_flags, f_multiblend, f_multiblend_default_colors, f_multiblend_partial, f_strata_points, f_visgroups,
     f_visgroup_membership, f_vis_flags, f_groups, f_camera_one, f_camera_two, f_cordon_one, f_cordon_two, f_strata_views,
     f_strata_views_zero, f_strata_inst_vis, f_view_flags, f_comments, f_logical_pos, f_editor_colors, f_quickhide, f_versions,
-    f_cordon_solid, f_worldspawn_keys, f_node_ids, f_ent_keys_types,
+    f_cordon_solid, f_worldspawn_keys, f_worldspawn_editor, f_node_ids, f_ent_keys_types,
 ]]
 FEATURE_MAP = dict(FEATURES)
 
